@@ -35,13 +35,16 @@ type specPool struct {
 	branches map[int]*specBranch
 }
 
+type specDelta struct{ adds, dels []int }
+
 type specState struct {
 	pools   map[int]*specPool   // by label
 	commits map[int]*specBranch // commit label -> state at that commit
+	deltas  map[int]specDelta   // commit label -> objects it added / deleted (for revert)
 }
 
 func newSpecState() *specState {
-	return &specState{pools: map[int]*specPool{}, commits: map[int]*specBranch{}}
+	return &specState{pools: map[int]*specPool{}, commits: map[int]*specBranch{}, deltas: map[int]specDelta{}}
 }
 
 func (s *specState) clone() *specState {
@@ -55,6 +58,9 @@ func (s *specState) clone() *specState {
 	}
 	for l, c := range s.commits {
 		n.commits[l] = c // immutable once recorded
+	}
+	for l, d := range s.deltas {
+		n.deltas[l] = d
 	}
 	return n
 }
@@ -100,7 +106,7 @@ func storeSpecApply(s *specState, rec *OpRecord, res string, strict bool) (*spec
 	pool := s.pools[op.Pool]
 	var br *specBranch
 	if pool != nil {
-		if op.Kind == "load" || op.Kind == "delete" {
+		if op.Kind == "load" || op.Kind == "delete" || op.Kind == "compact" || op.Kind == "revert" {
 			br = pool.branches[op.Branch]
 		} else {
 			br = pool.branches[op.Name]
@@ -199,9 +205,84 @@ func storeSpecApply(s *specState, rec *OpRecord, res string, strict bool) (*spec
 			}
 			nb.chain = append(nb.chain, lbl)
 			n.commits[op.Lbl] = nb.clone()
+			n.deltas[op.Lbl] = specDelta{adds: []int{op.Obj}}
 			return n, true
 		case "notfound":
 			return s, br == nil
+		}
+	case "compact":
+		all := br != nil
+		if br != nil {
+			for _, o := range op.Objs {
+				if !br.objs[o] {
+					all = false
+				}
+			}
+		}
+		switch res {
+		case "ok":
+			if br == nil || !all || br.objs[op.Obj] {
+				return nil, false
+			}
+			n := s.clone()
+			nb := n.pools[op.Pool].branches[op.Branch]
+			for _, o := range op.Objs {
+				delete(nb.objs, o)
+			}
+			nb.objs[op.Obj] = true
+			lbl := op.Lbl
+			if rec.Res != "ok" {
+				lbl = -1
+			}
+			nb.chain = append(nb.chain, lbl)
+			n.commits[op.Lbl] = nb.clone()
+			n.deltas[op.Lbl] = specDelta{adds: []int{op.Obj}, dels: append([]int(nil), op.Objs...)}
+			return n, true
+		case "notfound":
+			return s, br == nil
+		case "builderr":
+			return s, br != nil && !all
+		}
+	case "revert":
+		d, known := s.deltas[op.Parent]
+		var radds, rdels []int
+		if br != nil && known {
+			for _, a := range d.adds {
+				if br.objs[a] {
+					rdels = append(rdels, a)
+				}
+			}
+			for _, x := range d.dels {
+				if !br.objs[x] {
+					radds = append(radds, x)
+				}
+			}
+		}
+		switch res {
+		case "ok":
+			if br == nil || !known || len(radds)+len(rdels) == 0 {
+				return nil, false
+			}
+			n := s.clone()
+			nb := n.pools[op.Pool].branches[op.Branch]
+			for _, x := range rdels {
+				delete(nb.objs, x)
+			}
+			for _, x := range radds {
+				nb.objs[x] = true
+			}
+			lbl := op.Lbl
+			if rec.Res != "ok" {
+				lbl = -1
+			}
+			nb.chain = append(nb.chain, lbl)
+			n.commits[op.Lbl] = nb.clone()
+			n.deltas[op.Lbl] = specDelta{adds: radds, dels: rdels}
+			return n, true
+		case "notfound":
+			return s, br == nil || !known
+		case "empty":
+			return s, br != nil && known && len(radds)+len(rdels) == 0
 		}
 	case "delete":
 		all := br != nil
@@ -228,6 +309,7 @@ func storeSpecApply(s *specState, rec *OpRecord, res string, strict bool) (*spec
 			}
 			nb.chain = append(nb.chain, lbl)
 			n.commits[op.Lbl] = nb.clone()
+			n.deltas[op.Lbl] = specDelta{dels: append([]int(nil), op.Objs...)}
 			return n, true
 		case "notfound":
 			return s, br == nil
@@ -410,7 +492,7 @@ func StoreLinearizableModuloRemovedPool(hist []*OpRecord, obs []StorePoolState, 
 	changed := false
 	for _, h := range hist {
 		hh := *h
-		if (h.Op.Kind == "load" || h.Op.Kind == "delete") && h.Res == "ok" {
+		if (h.Op.Kind == "load" || h.Op.Kind == "delete" || h.Op.Kind == "compact" || h.Op.Kind == "revert") && h.Res == "ok" {
 			for _, r := range hist {
 				if r.Op.Kind == "removePool" && r.Res == "ok" && r.Op.Pool == h.Op.Pool && r.Start < h.End && h.Start < r.End {
 					hh.Res, hh.End = "", -1
@@ -449,7 +531,7 @@ func NewStoreSpec() *StoreSpec { return &StoreSpec{newSpecState()} }
 // one a sequential execution gives in the current state.
 func (sp *StoreSpec) Apply(rec *OpRecord) bool {
 	switch rec.Res {
-	case "ok", "exists", "keyexists", "notfound", "builderr", "unresolved":
+	case "ok", "exists", "keyexists", "notfound", "builderr", "unresolved", "empty":
 	default:
 		return false // contention / I/O classes cannot occur in a sequential history
 	}
@@ -502,6 +584,72 @@ func (sp *StoreSpec) poolByName(name int) *specPool {
 		}
 	}
 	return nil
+}
+
+// StoreSpecable: the sequential specification covers every operation of the history (merge,
+// delete-where and vector add are checked by StoreChainOracle and the content oracles instead).
+func StoreSpecable(clients [][]StoreOp) bool {
+	for _, ops := range clients {
+		for _, o := range ops {
+			switch o.Kind {
+			case "merge", "deleteWhere", "addVectors":
+				return false
+			}
+		}
+	}
+	return true
+}
+
+// StoreChainOracle checks the C12 statement directly for every kind of commit: each
+// acknowledged commit appears exactly once in the parent chain from the tip of its branch
+// (branches / pools that some operation of the history removes or re-creates are skipped).
+func StoreChainOracle(hist []*OpRecord, obs []StorePoolState, pools map[int]string) string {
+	touched := map[string]bool{}
+	for _, h := range hist {
+		switch h.Op.Kind {
+		case "removePool":
+			touched[fmt.Sprintf("p%d", h.Op.Pool)] = true
+		case "removeBranch":
+			touched[fmt.Sprintf("p%d/b%d", h.Op.Pool, h.Op.Name)] = true
+		}
+	}
+	for _, h := range hist {
+		if h.Res != "ok" || h.Commit == "" {
+			continue
+		}
+		br := h.Op.Branch
+		if h.Op.Kind == "merge" {
+			br = h.Op.Name // the commit lands on the parent branch
+		}
+		if touched[fmt.Sprintf("p%d", h.Op.Pool)] || touched[fmt.Sprintf("p%d/b%d", h.Op.Pool, br)] {
+			continue
+		}
+		found := false
+		for _, p := range obs {
+			if p.ID != pools[h.Op.Pool] {
+				continue
+			}
+			for _, b := range p.Branches {
+				if b.Key != br {
+					continue
+				}
+				found = true
+				n := 0
+				for _, c := range b.Chain {
+					if c == h.Commit {
+						n++
+					}
+				}
+				if n != 1 {
+					return fmt.Sprintf("acknowledged commit %s of client %d %s appears %d times in the chain of %s/%s", h.Commit, h.Client, h.Op, n, p.Name, b.Name)
+				}
+			}
+		}
+		if !found {
+			return fmt.Sprintf("branch of acknowledged commit %s (client %d %s) is gone", h.Commit, h.Client, h.Op)
+		}
+	}
+	return ""
 }
 
 // StoreIDStrings converts the registries of a run for the oracle.
